@@ -1,5 +1,5 @@
 import Qats.Model.Peaks
-import Qats.Lemmas.Rainflow
+import Qats.Lemmas.PreludeSort
 import Qats.Lemmas.PeaksSort
 import Mathlib.Tactic
 /-!
